@@ -74,7 +74,7 @@ func c08Bundles() map[string][]string {
 				"{for $i in range(2)}{call .row}{param i: $i /}{/call}{/for}{call .row}{param i: 9 /}{param m: $m /}{/call}{call .row data=\"all\"}{param i: 7 /}{/call}\n{/template}\n" +
 				"/**\n * @param i\n * @param? m\n * @param? l\n */\n{template .row}\n[{$i}:{$m ?: 'nm'}:{$l ? length($l) : 0}]\n{/template}\n" +
 				// data references that fail in different ways with the four data sets (missing root, access on a string, access on a list)
-				"/**\n * @param? b\n * @param? l\n */\n{template .refs}\n[{$b?.label}]{if $l}{$l[0][0].deep.er}{/if}[{$b.label.deep.er}]\n{/template}\n",
+				"/**\n * @param? b\n * @param? l\n */\n{template .refs}\n{let $t}[{$b?.label}]{if $l}{$l[0][0].deep.er}{/if}{/let}{$t}{call .row}{param i}<{$b?.label}>{/param}{/call}[{$b.label.deep.er}]\n{/template}\n",
 		},
 	}
 }
